@@ -14,7 +14,7 @@
 
    [legacy := true] is unmarshal_array before commit 834e941 (defect D01): an
    iteration that consumed nothing is not rejected. *)
-From Tx Require Import Lib.Base Model.PyVal Model.Marshal Model.Message.
+From Tx Require Import Lib.Base Model.PyVal Model.Marshal Model.Message Model.FdFraming.
 Local Open Scope N_scope.
 
 Record cost := mkc { calls : nat; scan : nat; units : nat }.
@@ -253,7 +253,8 @@ Fixpoint vsize (v : pyval) : nat :=
 Definition vsize_list (l : list pyval) : nat := fold_right (fun x n => (vsize x + n)%nat) 0%nat l.
 
 (* ---------------------------------------------------------------------------
-   parseMessage with the signature header field validated (repair D35): a
+   parseMessage with the signature header field validated (repair D35) and the
+   descriptor list cut to the message's own UNIX_FDS count (repair D60): a
    truthy signature that is not a str of at most 255 characters raises
    MarshallingError.  Message.parse_message is the pre-repair definition. *)
 
@@ -317,10 +318,16 @@ Definition parse_c (raw : bytes) (fds : fdst) : cres parsed :=
                     | Err e => (Err e, c2)
                     | Ok None => (Ok (msg_of mt serial er au attrs None), c2)
                     | Ok (Some sig) =>
-                        let '(rb, c3) := mc_unmarshal false raw_body le fds (lin_fuel sig raw_body) sig 0 in
-                        match rb with
-                        | Err e => (Err e, cadd c2 c3)
-                        | Ok (_, body) => (Ok (msg_of mt serial er au attrs (Some body)), cadd c2 c3)
+                        (* repair D60: oobFDs = oobFDs[:getattr(m, 'unix_fds', 0)] (FdFraming.body_fds);
+                           a UNIX_FDS field that is not an int / bool / None makes the slice raise *)
+                        match body_fds false attrs fds with
+                        | Err e => (Err e, c2)
+                        | Ok bf =>
+                            let '(rb, c3) := mc_unmarshal false raw_body le bf (lin_fuel sig raw_body) sig 0 in
+                            match rb with
+                            | Err e => (Err e, cadd c2 c3)
+                            | Ok (_, body) => (Ok (msg_of mt serial er au attrs (Some body)), cadd c2 c3)
+                            end
                         end
                     end
                 end
@@ -350,7 +357,8 @@ Definition parse_gen (fh : nat) (fb : str -> bytes -> nat) (raw : bytes) (fds : 
             match os with
             | None => Ok (msg_of mt serial er au attrs None)
             | Some sig =>
-                do rb <- m_unmarshal (fb sig raw_body) sig raw_body 0 le fds;
+                do bf <- body_fds false attrs fds;
+                do rb <- m_unmarshal (fb sig raw_body) sig raw_body 0 le bf;
                 let '(_, body) := rb in
                 Ok (msg_of mt serial er au attrs (Some body))
             end
